@@ -10,21 +10,24 @@ def shapes_for(tier):
     return witness.shapes_quick() if tier == "quick" else witness.shapes_thorough()
 
 
-def unit_source(policy, shapes, with_update=True, with_routes=True):
+STATIC_SHAPES = ["r", "ir", "rr", "rir", "rrr", "irnrp".replace("n", "i"), "rrrr", "VW", "sSd"]
+
+
+def unit_source(policy, shapes, with_update=True, with_routes=True, static_shapes=()):
     extra = []
     if with_routes:
         extra.append(witness.routes_block([policy]))
     if with_update:
         extra.append(witness.update_block([policy]))
-    src, index = witness.call_matrix([policy], shapes, "\n".join(extra))
+    src, index = witness.call_matrix([policy], shapes, "\n".join(extra), static_shapes=static_shapes)
     return src, index
 
 
-def build_units(run, policies, shapes, ndebug=True, with_update=True):
+def build_units(run, policies, shapes, ndebug=True, with_update=True, static_shapes=(), tag="cp"):
     """-> list of dict(policy, module, index, name)"""
     def one(p):
-        src, index = unit_source(p, shapes, with_update=with_update)
-        name = "cp_%s_%s" % (p, "nd" if ndebug else "dbg")
+        src, index = unit_source(p, shapes, with_update=with_update, static_shapes=static_shapes)
+        name = "%s_%s_%s" % (tag, p, "nd" if ndebug else "dbg")
         path = common.ir_json(run, src, name, ndebug=ndebug)
         return {"policy": p, "path": path, "index": index, "name": name, "ndebug": ndebug}
     units = common.parallel(one, policies)
